@@ -943,10 +943,46 @@ def run(ck):
               'subscript object kinds -> element kind: %s' % tab if tab and all(tab.get(k_) == v_ for k_, v_ in want.items()) else
               'the element of a subscript is an lvalue for an object that is not a local variable (%s): `rows[0][1] = v` / `obj.list[0] = v` is accepted and writes to a temporary copy' % (tab or 'table not found'), fn=we['path'])
 
+    # ---- R5.12 a class named in an annotation is a pointer type exactly when it is a QObject ------------------------------------------------------
+    ck.rule('R5.12', 'an annotated class type (`x: T`, `as T`, callback parameters) is T* exactly when T derives from QObject')
+    ck.explanation += (' R5.12 wherever TypeKind::Pointer(NamedType::Class(..)) is built under a derivation test (arm guard or if), the test is is_derived_from(classes.object). '
+                       'R5.9 also re-files the C01 R1.12 ast-kind obligations: a grammar node kind builds the AST variant named after it, so no unsupported construct is read as a supported one.')
+    n_p = 0
+    for fn in L.fn_list:
+        if fn.get('body') is None or '::tests::' in fn['path']:
+            continue
+        for c in H.calls_in(fn['body']):
+            if not (c.get('k') == 'Call' and (c.get('def') or '').endswith('TypeKind::Pointer') and c['args']):
+                continue
+            a0 = H.strip_refs(c['args'][0])
+            if not (a0.get('k') == 'Call' and (a0.get('def') or '').endswith('NamedType::Class')):
+                continue
+            # the derivation tests that decide this construction: arm guards and if-conditions around it
+            tests = []
+            for a in H.ancestors(fn, c):
+                conds = []
+                if a.get('k') == 'Arm' and a.get('guard') is not None and any(x is c for x in walk(a['body'])):
+                    conds.append(a['guard'])
+                if a.get('k') == 'If' and any(x is c for x in walk(a['then'])):
+                    conds.append(a['c'])
+                for cd in conds:
+                    for x in walk(cd):
+                        if x.get('k') == 'MCall' and x.get('m') == 'is_derived_from' and x['args']:
+                            f_ = H.strip_refs(x['args'][0])
+                            tests.append(f_.get('f') if f_.get('k') == 'Field' and 'KnownClasses' in (f_.get('adt') or '') else pp(f_, maxlen=30))
+            if not tests:
+                continue
+            n_p += 1
+            ck.ob('R5.12', 'pointer-iff-qobject|%s' % short(fn['path']), tests == ['object'], L.loc(c),
+                  'Pointer(Class(..)) is built under is_derived_from(classes.object)' if tests == ['object'] else
+                  'Pointer(Class(..)) is built under a derivation test against %s, not against QObject: QObject classes outside that family are typed as values '
+                  '(`function(a: QAction)` no longer matches QAction*, `x as QObject` is refused) and the other classes as before' % tests, fn=fn['path'])
+    ck.floor('R5.12', n_p, 1, 'guarded constructions of TypeKind::Pointer(NamedType::Class(..))')
+
     # ---- shared obligations: places outside the type checker that decide whether its verdict is reached at all -------------------------------
     import core as _core
     import rules.c01 as c01
-    s1 = _core.Shared(ck, 'R5.9', lambda r, k: r == 'R1.1', 'C01:', ' [a token mapped to another operator is typed as that operator: an undocumented one is accepted]')
+    s1 = _core.Shared(ck, 'R5.9', lambda r, k: r == 'R1.1' or (r == 'R1.12' and k.startswith('ast-kind|')), 'C01:', ' [a token mapped to another operator is typed as that operator: an undocumented one is accepted]')
     c01.run(s1)
     ck.floor('R5.9', s1.count, 38, 'shared C01 R1.1 obligations')
     import rules.c06 as c06
